@@ -900,7 +900,7 @@ class Ratfun(object):
             if o == 1:
                 for n in range(m + 1, len(R)):
                     qp2 = QP[n]
-                    if not qp.is_conjugate_pair(qp2):
+                    if not qp.is_conjugate_pair(qp2) or O[n] != 1:
                         continue
 
                     # The residues are complex conjugates but this
